@@ -27,7 +27,13 @@ Inductive op :=
 | ONotif (atomic : bool) (pre : option gpath) (ups dels : list (option gpath))
     (* Server.Update on a leaf; [atomic] is Notification.Atomic, which Server.Update does not look at *)
 | ONodes                                            (* size of the trie *)
-| OConc (once : bool) (tq : path) (hs : list nat) (p : path).
+| OConc (once : bool) (tq : path) (hs : list nat) (p : path)
+| ORace (cx cy : cid) (qx qy p : path) (k : nat) (upd : bool).
+    (* k times: AddQuery(qx, cx); UpdateOnce(p) with a fresh set; count the
+       offers to cx; call the removal closure -- while a second goroutine spins
+       AddQuery(qy, cy) / its removal (another subscriber on a shared prefix)
+       and, with [upd], a third one spins Update(p).  Everything is removed at
+       the end. *)
     (* Update / UpdateOnce of p while a trigger client registered at tq (for
        this operation only) starts, INSIDE its callback, a goroutine that calls
        the removal closures hs, and watches whether that goroutine finishes
@@ -42,6 +48,7 @@ Inductive obs :=
     (* offers; the trigger was called; the removals RETURNED while the update
        was still in progress; clients being removed that were first called after
        the removals had returned *)
+| RRace (n : nat)          (* how often cx was offered its k updates, in total *)
 | RPanic.                                           (* equal to nothing *)
 
 (** ** canonical forms *)
@@ -72,6 +79,7 @@ Definition obs_eqb (a b : obs) : bool :=
   | ROffers x, ROffers y => list_eqb cn_eqb x y
   | RNotif x h, RNotif y g => list_eqb cn_eqb x y && list_eqb Nat.eqb h g
   | RNodes x, RNodes y => Nat.eqb x y
+  | RRace x, RRace y => Nat.eqb x y
   | RConc x t e l, RConc y t' e' l' =>
       list_eqb cn_eqb x y && Bool.eqb t t' && Bool.eqb e e' && list_eqb Nat.eqb l l'
   | _, _ => false
@@ -160,6 +168,12 @@ Definition mstep (s : mst) (o : op) : mst * obs :=
   | ONotif atomic pre ups dels =>
       (s, RNotif (tally (server_update (m_trie s) pre ups dels)) (model_hits (m_handles s) atomic pre ups))
   | ONodes => (s, RNodes (nodes (m_trie s)))
+  | ORace cx cy qx qy p k _ =>
+      (* AddQuery is one critical section (MatchProofs.registered_until_removed_concurrent):
+         once it has returned, cx is registered at qx whatever other
+         subscribers add or remove meanwhile, until its own closure runs *)
+      (s, RRace (k * List.length (filter (Nat.eqb cx)
+                                         (fst (update_once (add_query qx cx (m_trie s)) p (Some [])))))%nat)
   | OConc once tq hs p =>
       (* the callbacks run inside the read-locked section, so the removal
          closures cannot even start their critical section before the call
@@ -299,6 +313,13 @@ Definition kstep (s : sst) (o : op) (r : obs) : list N :=
   | ONotif _ pre ups dels, RNotif l hits =>
       let ps := map (fun p => notif_prefix pre ++ p) (notif_paths ups dels) in
       flat_map (judge s true (List.length ps) ps l hits) (all_clients s l hits)
+  | ORace cx cy qx qy p k _, RRace n =>
+      (* between the return of AddQuery(qx, cx) and cx's own removal every
+         compatible update is offered to cx, exactly once, whatever cy does *)
+      if mem cx (s_unspec s) || Nat.eqb cx cy then [] else
+      let expected := compat qx p || match regs_of cx [p] (s_reg s) with [] => false | _ :: _ => true end in
+      if expected then (if Nat.ltb n k then [2%N] else if Nat.ltb k n then [3%N] else [])
+      else (match n with O => [] | S _ => [2%N] end)
   | OConc once tq hs p, RConc l _ _ late =>
       (* Clients whose registrations the removals leave alone are judged as
          for a sequential update.  A client being removed may or may not get
